@@ -231,6 +231,26 @@ def fingerprint(n):
     return out
 
 
+def eventless_by_type_bit(rep, rule):
+    """both engines decide 'eventless' from the SPONTANEOUS type bit (shared by C12 R12.9 and C03 R03.15)"""
+    n9 = 0
+    fb9 = facts.FactBase(['src/uscxml/interpreter/LargeMicroStep.cpp', 'src/uscxml/interpreter/FastMicroStep.cpp'])
+    for eq in ('uscxml::LargeMicroStep::step', 'uscxml::FastMicroStep::step'):
+        f9 = fb9.fn(eq)
+        by_size = []
+        for n in f9.walk():
+            if n['k'] == 'BinaryOperator' and n.get('op') in ('==', '!=', '>') and tab.const_of(n['c'][1]) == 0:
+                l = strip(n['c'][0])
+                if l is not None and l['k'] == 'CXXMemberCallExpr' and l.get('callee', {}).get('q', '').split('::')[-1] in ('size', 'length', 'empty') and any(
+                        x['k'] == 'MemberExpr' and x['ref'].get('name') == 'event' and 'Transition' in (x['ref'].get('rec') or '') for x in sub(l)):
+                    by_size.append(n)
+        by_bit = [n for n in f9.walk() if any(m[0] == 'USCXML_TRANS_SPONTANEOUS' for m in (n.get('mac') or []))]
+        n9 += 1
+        rep.check(not by_size and bool(by_bit), rule, eq.split('::')[1] + '|eventless test', locstr(by_size[0]) if by_size else f9.where(), 'the selection classifies a transition as eventless %s' % (
+            'by the SPONTANEOUS type bit' if not by_size and by_bit else 'by the LENGTH of its descriptor string (%d tests): <transition event=""> is taken as an eventless transition (and loops forever when targetless), the generated C and Promela never enable it' % len(by_size)))
+    rep.minimum(rule, n9, 2, 'engines')
+
+
 def trie_rules(rep, fb, r5, r6):
     """word registration and subtree collection of the prefix trie (shared with C06: static event-descriptor resolution)"""
     # ---- R12.5
@@ -502,22 +522,7 @@ def run(rep, tier):
 
     # ---- R12.9 eventless means "no event attribute", not "empty event attribute"
     rep.rule('R12.9', 'a transition is eventless iff it has no event attribute: the engines decide it from the type bit set from the attribute\'s presence (as the generated C and the Promela model do), not from the length of the descriptor string (event="" names no event and matches nothing)')
-    n9 = 0
-    fb9 = facts.FactBase(['src/uscxml/interpreter/LargeMicroStep.cpp', 'src/uscxml/interpreter/FastMicroStep.cpp'])
-    for eq in ('uscxml::LargeMicroStep::step', 'uscxml::FastMicroStep::step'):
-        f9 = fb9.fn(eq)
-        by_size = []
-        for n in f9.walk():
-            if n['k'] == 'BinaryOperator' and n.get('op') in ('==', '!=', '>') and tab.const_of(n['c'][1]) == 0:
-                l = strip(n['c'][0])
-                if l is not None and l['k'] == 'CXXMemberCallExpr' and l.get('callee', {}).get('q', '').split('::')[-1] in ('size', 'length', 'empty') and any(
-                        x['k'] == 'MemberExpr' and x['ref'].get('name') == 'event' and 'Transition' in (x['ref'].get('rec') or '') for x in sub(l)):
-                    by_size.append(n)
-        by_bit = [n for n in f9.walk() if any(m[0] == 'USCXML_TRANS_SPONTANEOUS' for m in (n.get('mac') or []))]
-        n9 += 1
-        rep.check(not by_size and bool(by_bit), 'R12.9', eq.split('::')[1] + '|eventless test', locstr(by_size[0]) if by_size else f9.where(), 'the selection classifies a transition as eventless %s' % (
-            'by the SPONTANEOUS type bit' if not by_size and by_bit else 'by the LENGTH of its descriptor string (%d tests): <transition event=""> is taken as an eventless transition (and loops forever when targetless), the generated C and Promela never enable it' % len(by_size)))
-    rep.minimum('R12.9', n9, 2, 'engines')
+    eventless_by_type_bit(rep, 'R12.9')
     # ---- R12.10 names derived from event names for the VHDL back-end
     rep.rule('R12.10', 'statically resolved matches keep event names apart: escapeMacro (signal names) writes every character of the name in place, appending strings or characters only (an integer appended to a std::string is narrowed to one byte), and toBinStr (event codes) emits the digits 0 and 1 only and pads to the full margin')
     fbS = facts.FactBase(['src/uscxml/util/String.cpp'])
